@@ -3,16 +3,19 @@
    Ports/DispatchProofs.v and Ports/DispatchRegress.v, the model in
    Ports/DispatchModel.v (matcher: Match/MatchModel.v, C05).
 
-   What is proved is about ONE table of Ports::dispatch and ANY callback
-   functions (so it applies at every level of a tree); the pure functions
-   scan_hits / lookup_hit say which ports a loop calls, the *_fold / *_hit
-   theorems say the loops call exactly those, in order.  The tree-level
-   statements (loc = full address at every depth, matches = number of leaf
-   callbacks of the whole descent) are checked by the correspondence run and
-   the Spec oracle only - see notes/C04.md. *)
+   Two layers.  (1) One table of Ports::dispatch and ANY callback functions:
+   the pure functions scan_hits / lookup_hit say which ports a loop calls, the
+   *_fold / *_hit theorems say the loops call exactly those, in order.
+   (2) The whole descent through a port TREE of any depth (Ports/TreeProofs.v):
+   a root dispatch logs exactly spec_events - level by level the ports whose
+   name matches, each with the object handed down, the location so far and its
+   own Port - and leaves matches = number of leaf callbacks (+ default-handler
+   calls), loc = "/", obj restored (C04_tree_dispatch_loc, C04_tree_dispatch_noloc); the property
+   statements C04_loc_full_address, C04_matches_count, C04_port_pointer,
+   C04_exactly_one_leaf, C04_tree_strategy_independent are corollaries. *)
 From Coq Require Import List ZArith.
 From RtoscV Require Import Match.PatSpec Match.MatchModel Match.MatchProofs
-     Ports.DispatchModel Ports.DispatchProofs Ports.DispatchRegress.
+     Ports.DispatchModel Ports.DispatchProofs Ports.DispatchRegress Ports.TreeProofs.
 Import ListNotations.
 Local Open Scope Z_scope.
 
@@ -134,3 +137,94 @@ Theorem C04_nonvacuous :
      lookup_hit tab_ex H [97] [102] = LMiss) /\
   lit_table tab_ex /\ assoc_ok tab_ex.
 Proof. exact tab_ex_ok. Qed.
+
+(* ======================================================================== *)
+(* the tree                                                                  *)
+(* ======================================================================== *)
+(* root_ok t m: every table of t is either not hashed by the library (then
+   nothing is asked of its names) or literal with assoc in range; flags and
+   sub-trees agree; the address is 7-bit without ':' *)
+
+(* what a root dispatch does, with a location buffer ... *)
+Theorem C04_tree_dispatch_loc : forall t m args o,
+  tree_ok t -> addr_chars (strip m) -> seven_bit (strip m) ->
+  exists dp, dispatch t m args true o =
+    {| loc := Some [47]; matches := leaf_count (spec_events t m args o true); obj := o;
+       dport := dp; log := rev (spec_events t m args o true) |}.
+Proof. exact dispatch_with_loc. Qed.
+
+(* ... and without one: any tree, any names, any address *)
+Theorem C04_tree_dispatch_noloc : forall t m args o,
+  exists dp, dispatch t m args false o =
+    {| loc := None; matches := 0; obj := o; dport := dp;
+       log := rev (spec_events t m args o false) |}.
+Proof. exact dispatch_without_loc. Qed.
+
+(* matches = number of leaf callbacks invoked over the whole descent (a
+   default-handler call counts as one); loc is back to "/", obj restored *)
+Theorem C04_matches_count : forall t m args o, root_ok t m ->
+  let d := dispatch t m args true o in
+  matches d = leaf_count (log d) /\ loc d = Some [47] /\ obj d = o.
+Proof. exact tree_matches_count. Qed.
+
+(* every callback, at every depth, sees its own Port in d.port *)
+Theorem C04_port_pointer : forall t m args o,
+  Forall ev_port_ok (log (dispatch t m args false o)) /\
+  (root_ok t m -> Forall ev_port_ok (log (dispatch t m args true o))).
+Proof. exact tree_port_pointer. Qed.
+
+(* names of the documented form (literal text, #N; sub-tree ports one
+   component + '/', leaves without trailing '/'): every callback's loc is a
+   prefix of the full address "/" ++ address, a leaf's loc IS the full address *)
+Theorem C04_loc_full_address : forall t m args o,
+  root_ok t m -> names_ok t -> addr_ok (strip m) ->
+  Forall (ev_loc_ok (47 :: strip m)) (log (dispatch t m args true o)).
+Proof. exact tree_loc_full_address. Qed.
+
+(* a message addressed to one leaf (at every level exactly the port on the
+   path matches): the callbacks are exactly the chain along the path - one per
+   level, objects threaded down by the parents - exactly one of them a leaf,
+   matches = 1, and the same chain runs without a location buffer *)
+Theorem C04_exactly_one_leaf : forall path t m args o,
+  root_ok t m -> addressed path t (strip m) args ->
+  rev (log (dispatch t m args true o)) = chain path t (strip m) args o (Some [47]) /\
+  rev (log (dispatch t m args false o)) = chain path t (strip m) args o None /\
+  matches (dispatch t m args true o) = 1 /\
+  leaf_count (chain path t (strip m) args o (Some [47])) = 1 /\
+  length (chain path t (strip m) args o (Some [47])) = length path.
+Proof. exact tree_exactly_one_leaf. Qed.
+
+(* the same callbacks (table, port, message pointer, object, leaf flag, port
+   pointer), in the same order, with and without a location buffer; only loc
+   and the default-handler calls differ *)
+Theorem C04_tree_strategy_independent : forall t m args o, root_ok t m ->
+  strip_loc (rev (log (dispatch t m args true o))) = rev (log (dispatch t m args false o)).
+Proof. exact tree_strategy_independent. Qed.
+
+(* tables with a '#' name (or a multi-component literal name) are never
+   hashed; an unhashed table is served by the same scan with and without
+   buffer, whatever its names are *)
+Theorem C04_unhashed_tables : forall T,
+  (exists p, In p (t_ports T) /\ (mem 35 (fst p) = true \/ inner_slash (fst p) = true)) ->
+  tables_of T = None.
+Proof. exact unhashed_tables. Qed.
+
+Theorem C04_unhashed_same_calls : forall cb dh T m args st l,
+  tables_of T = None -> loc st = Some l -> l <> [] ->
+  dispatch_table cb dh T m args false st =
+  fold_left (step_loc cb (t_id T) m (obj st) l) (scan_hits (t_ports T) 0 m args) st /\
+  forall st', loc st' = None ->
+  dispatch_table cb dh T m args false st' =
+  fold_left (step_noloc cb (t_id T) m (obj st')) (scan_hits (t_ports T) 0 m args) st'.
+Proof. exact unhashed_same_calls. Qed.
+
+(* the hypotheses hold for { a#2/ -> { b, c:i } (hashed), d } and /a1/c *)
+Theorem C04_tree_nonvacuous :
+  (root_ok tree_ex msg_ex /\ tables_of tab_inner <> None) /\
+  (names_ok tree_ex /\ addr_ok (strip msg_ex)) /\
+  addressed [0%nat; 1%nat] tree_ex (strip msg_ex) [105] /\
+  dispatch tree_ex msg_ex [105] true 1 =
+  {| loc := Some [47]; matches := 1; obj := 1; dport := Some (1, 1);
+     log := [Ev 1 1 [99] 133 (Some [47; 97; 49; 47; 99]) (Some (1, 1)) true;
+             Ev 0 0 [97; 49; 47; 99] 1 (Some [47; 97; 49; 47]) (Some (0, 0)) false] |}.
+Proof. exact (conj tree_ex_ok (conj tree_ex_names (conj tree_ex_addressed tree_ex_run))). Qed.
